@@ -2,6 +2,7 @@ package props
 
 import (
 	"go/token"
+	"strings"
 
 	"golang.org/x/tools/go/ssa"
 
@@ -226,6 +227,34 @@ func getAsync(c *Ctx) {
 			}
 		}
 		pq.add("PROV", "the waiter re-evaluates get() for the same consumer and position", okc && oko, "get(c, offset) with getAsync's parameters", gc)
+		// the answer is filled in consistently with get()'s verdict: Error only from a non-nil err, Value only when found
+		errv, okv := resultOf2(gc.(*ssa.Call), 2), resultOf2(gc.(*ssa.Call), 1)
+		if errv != nil && okv != nil && an.Host(gc.Parent()) == gc.Parent() {
+			// (only when get() is called and judged in the predicate itself; through a helper this shape is not decided)
+			ifn, ns, found := pq.nilTestOf(func(v ssa.Value) bool { return v == errv })
+			okIfs, okNegs := P.IfsOn(ps[0], func(cond ssa.Value) bool { return cond == okv })
+			for _, st := range an.AllInstrs(ps[0], func(in ssa.Instruction) bool {
+				s, ok := in.(*ssa.Store)
+				return ok && (strings.HasSuffix(an.FieldOfAddr(s.Addr), ".Error") || strings.HasSuffix(an.FieldOfAddr(s.Addr), ".Value"))
+			}) {
+				isErr := strings.HasSuffix(an.FieldOfAddr(st.(*ssa.Store).Addr), ".Error")
+				good := found
+				if found && isErr {
+					good = pq.onlyViaEdge(st, ifn, 1-ns) && st.(*ssa.Store).Val == errv
+				} else if found {
+					good = pq.onlyViaEdge(st, ifn, ns) && len(okIfs) == 1
+					if good {
+						ts := 0
+						if okNegs[0] {
+							ts = 1
+						}
+						good = pq.onlyViaEdge(st, okIfs[0], ts)
+					}
+				}
+				pq.add("PATH", pickS(isErr, "the waiter reports an error only if get() failed", "the waiter reports a value only if get() found one"), good,
+					pickS(good, pickS(isErr, "result.Error = err only through err != nil", "result.Value = v only through err == nil and ok"), "the waiter's answer is not tied to get()'s verdict (a blocked Get could return a nil value with a nil error, or swallow an error)"), st)
+			}
+		}
 		// ... on EVERY wake-up: no evaluation of the predicate answers without consulting get() (a verdict taken from a
 		// position computed earlier goes stale when the cleaner shifts the buffer while the Get is parked)
 		skip := P.PathExists(ps[0], nil, an.IsReturn, an.Is(gc), nil)
@@ -262,6 +291,7 @@ func init() {
 			waitCond(c)
 			getAsync(c)
 			consumerGet(c)
+			c.errPolarity("(*consumer).Get", "WaitCond", "(*Buffer).get", "(*Buffer).getAsync")
 			ensureRecheck(c, false) // a replaced cond strands the waiters parked on the old one
 			out := c.sel(func(o *an.Oblig) bool {
 				if isUndecided(o) || o.Rule == "ANCHOR" {
